@@ -1284,4 +1284,68 @@ example : leapNormal ⟨45296, 1500000000⟩ = ⟨45297, 500000000⟩ ∧
     Chrono.Spec.TValid ⟨45296, 1500000000⟩ ∧ (45296 : Int) % 60 ≠ 59 := by decide
 
 
+/-! ### second review, G2: the dot-fraction items next to variable-width numbers and after white space
+
+`Spec.separated` accepts `%.3f %.6f %.9f` (a dot first) after any number, and `%.f` (nothing, or a dot first)
+directly after a number (what delimits `%.f` delimits the number); `Spec.afterSpaceOk` accepts the
+fixed-width fraction items and a literal whose first character is complete and not white space.  All 117
+time forms of the harness are now inside `Unambiguous` (the harness REQUIRES a prediction for them: `pf.sp`
+answers `nopred` otherwise). -/
+
+example : Unambiguous (Strftime.items (Chrono.asciiBytes "%H:%M:%-S%.f")) .time := by decide +kernel
+example : Unambiguous (Strftime.items (Chrono.asciiBytes "%H.%M.%-S%.f")) .time := by decide +kernel
+example : Unambiguous (Strftime.items (Chrono.asciiBytes "%H %M %_S%.3f")) .time := by decide +kernel
+example : Unambiguous (Strftime.items (Chrono.asciiBytes "%k:%-M:%-S%.9f")) .time := by decide +kernel
+example : Unambiguous (Strftime.items (Chrono.asciiBytes "%I:%M:%-S%.f %P")) .time := by decide +kernel
+example : Unambiguous (Strftime.items (Chrono.asciiBytes "%-S%.f:%H:%M")) .time := by decide +kernel
+example : Unambiguous (Strftime.items (Chrono.asciiBytes "%H:%M:%S %.3f")) .time := by decide +kernel
+example : Unambiguous (Strftime.items (Chrono.asciiBytes "%H:%M:%S %9f")) .time := by decide +kernel
+/-- `%H é%M` (a literal that starts with a non-blank non-ASCII character after white space) -/
+example : Unambiguous (Strftime.items [37, 72, 32, 195, 169, 37, 77]) .time := by decide +kernel
+/-- still outside: `%.f` after white space (`%S %.f .%3f` is really ambiguous), `%.f` before a dot -/
+example : ¬ Unambiguous (Strftime.items (Chrono.asciiBytes "%H:%M:%S %.f")) .time := by decide +kernel
+example : ¬ Unambiguous (Strftime.items (Chrono.asciiBytes "%H:%M:%-S%.f.%3f")) .time := by decide +kernel
+example : ¬ Unambiguous (Strftime.items (Chrono.asciiBytes "%H:%M:%-S%.f%.3f")) .time := by decide +kernel
+/-- a number directly before `%.f` directly before a digit is not separated -/
+example : ¬ Unambiguous (Strftime.items (Chrono.asciiBytes "%H:%M:%-S%.f%d")) .naive := by decide +kernel
+
+/-- `family_roundtrip_time` on a newly covered member: `%H:%M:%-S%.f` for every valid time of day (the
+unpadded second is delimited by the dot of the fraction, or by the end for a whole second) -/
+example (t : Time) (htv : Chrono.Spec.TValid t) (hleap : 1000000000 ≤ t.frac → t.secs % 60 = 59) :
+    ∃ text, format (.time t) (Chrono.asciiBytes "%H:%M:%-S%.f") = Format.wok text ∧
+      parse_from_str .time text (Chrono.asciiBytes "%H:%M:%-S%.f") = .ok (.ok (.time t)) := by
+  have hi : Strftime.items (Chrono.asciiBytes "%H:%M:%-S%.f") =
+      [.numeric .hour .zero, .literal [58], .numeric .minute .zero, .literal [58], .numeric .second .none,
+       .fixed .nanosecond] := by decide +kernel
+  have h := family_roundtrip_time (Chrono.asciiBytes "%H:%M:%-S%.f") t htv (by rw [hi]; decide) ?_
+  · obtain ⟨text, h0, h, _⟩ := h
+    refine ⟨text, h0, ?_⟩
+    rw [h, hi]
+    have hfd : fracDigits [.numeric .hour .zero, .literal [58], .numeric .minute .zero, .literal [58],
+        .numeric .second .none, .fixed .nanosecond] = 9 := by decide
+    have hc : (carries [.numeric .hour .zero, .literal [58], .numeric .minute .zero, .literal [58],
+        .numeric .second .none, .fixed .nanosecond]).second = true := by decide
+    obtain ⟨_, _, t3, t4⟩ := htv
+    have e9 := (cutFrac_forms t.frac).1
+    have : truncTime [.numeric .hour .zero, .literal [58], .numeric .minute .zero, .literal [58],
+        .numeric .second .none, .fixed .nanosecond] t = t := by
+      simp only [truncTime, hc, hfd, e9, Bool.true_eq_false, if_false]
+      cases t with
+      | mk secs frac =>
+        simp only [Time.mk.injEq, true_and]
+        simp only at t3 t4
+        split <;> omega
+    rw [this]
+  · rw [hi]
+    refine ⟨trivial, ?_, trivial, ?_, ?_⟩
+    · simpa [exprLeap, shown, onSome] using hleap
+    · intro h; exact absurd h (by decide)
+    · simp only [exprFrac, shown, onSome]
+      intro it hm
+      have hfd : fracDigits [.numeric .hour .zero, .literal [58], .numeric .minute .zero, .literal [58],
+          .numeric .second .none, .fixed .nanosecond] = 9 := by decide
+      rw [hfd]
+      simp only [List.mem_cons, List.not_mem_nil, or_false] at hm
+      rcases hm with rfl | rfl | rfl | rfl | rfl | rfl <;> simp [itemFracDigits]
+
 end Chrono.Props.C13
